@@ -524,10 +524,15 @@ def finalize(obs: Observer) -> list[dict]:
             prov = []
             sy = True
             cands = sorted(iter_pts, reverse=True)
-            for r in range(sk.shape[0]):
+            # rows are processed from the newest to the oldest; among several matching (a, b) the one that
+            # chains with the next pair (b == a of the later pair) is preferred, then the most recent
+            need_b = None
+            prov_rev = []
+            for r in range(sk.shape[0] - 1, -1, -1):
                 # [a, b, yExact, sExact, yApprox]
                 found = [0, 0, False, False, False]
                 for exact in (True, False):
+                    matches = []
                     for b in cands:
                         for a in cands:
                             if a == b:
@@ -535,22 +540,26 @@ def finalize(obs: Observer) -> list[dict]:
                             dab = obs.arr[b] - obs.arr[a]
                             if (np.array_equal(dab, sk[r]) if exact else
                                     np.allclose(dab, sk[r], rtol=1e-9, atol=1e-12 * (1 + float(np.max(np.abs(obs.arr[b])))))):
-                                ga, gb = obs.gval.get(a), obs.gval.get(b)
-                                yex = yap = False
-                                if ga is not None and gb is not None:
-                                    dy = gb * s - ga * s
-                                    yex = bool(np.array_equal(dy, yk[r]))
-                                    yap = bool(np.allclose(dy, yk[r], rtol=1e-7,
-                                                           atol=1e-10 * (1 + float(np.max(np.abs(gb * s))))))
-                                found = [a, b, yex, exact, yap]
-                                break
-                        if found[0]:
-                            break
-                    if found[0]:
+                                matches.append((a, b))
+                    if matches:
+                        def score(m):
+                            ga, gb = obs.gval.get(m[0]), obs.gval.get(m[1])
+                            yex = bool(ga is not None and gb is not None and np.array_equal(gb * s - ga * s, yk[r]))
+                            return (m[1] == need_b, yex, m[1], m[0])
+                        a, b = max(matches, key=score)
+                        ga, gb = obs.gval.get(a), obs.gval.get(b)
+                        yex = yap = False
+                        if ga is not None and gb is not None:
+                            dy = gb * s - ga * s
+                            yex = bool(np.array_equal(dy, yk[r]))
+                            yap = bool(np.allclose(dy, yk[r], rtol=1e-7, atol=1e-10 * (1 + float(np.max(np.abs(gb * s))))))
+                        found = [a, b, yex, exact, yap]
                         break
-                prov.append(found)
+                prov_rev.append(found)
+                need_b = found[0] if found[0] else None
                 if not float(sk[r].dot(yk[r])) > 0:
                     sy = False
+            prov = prov_rev[::-1]
             o["prov"] = prov
             o["syPos"] = sy
             if k == "Callback":
